@@ -806,7 +806,7 @@ func dispatchFn(c *Ctx) *ir.Func {
 func banFn(c *Ctx) *ir.Func {
 	pmBan := c.P.Method("syncer", "PeerStore", "Ban")
 	for _, f := range c.P.MethodsOf("syncer", "Syncer") {
-		if f.Type.Params.NumFields() == 2 && len(f.CallsTo(false, pmBan)) > 0 {
+		if f.Type.Params.NumFields() == 2 && len(f.CallsTo(true, pmBan)) > 0 {
 			return f
 		}
 	}
@@ -892,12 +892,18 @@ func c11r4(c *Ctx) {
 		ob := c.Ob(f, "recover-before-dispatch", f.Body.Pos())
 		var rec *cfgx.Node
 		for _, d := range f.Defers() {
-			if d.Lit == nil {
+			// the deferred function itself must call recover (directly, not in a function it calls): a literal, or a
+			// repository function / method deferred by name
+			body := d.Lit
+			if body == nil && d.Call.Fn != nil {
+				body = c.P.FuncOf(d.Call.Fn)
+			}
+			if body == nil {
 				continue
 			}
-			for _, call := range d.Lit.Calls(false) {
+			for _, call := range body.Calls(false) {
 				if id, ok := call.Expr.Fun.(*ast.Ident); ok && id.Name == "recover" {
-					if _, isB := d.Lit.Info().Uses[id].(*types.Builtin); isB {
+					if _, isB := body.Info().Uses[id].(*types.Builtin); isB {
 						rec = d.Node
 					}
 				}
@@ -1031,10 +1037,14 @@ func c11r5(c *Ctx) {
 	}
 	// sync worker: invalid block on the checkpoint path; finisher: AddBlocks / AddValidatedV2Blocks error
 	validateBlock := c.P.FuncObj("consensus", "ValidateBlock")
-	for _, fn := range c.P.Funcs {
-		if fn.Pkg.PkgPath != ir.PkgPath("syncer") {
-			continue
-		}
+	// (every function unit of the package with helpers and closures expanded, and the literals that remain —
+	// goroutine bodies, callbacks)
+	var units []*ir.Func
+	for _, r := range c.P.Views("syncer", ir.ExpandOpt{Key: "dispatch", Stop: func(fn *types.Func) bool { return fn == ban.Obj }}).Roots {
+		units = append(units, r)
+		units = append(units, r.Lits...)
+	}
+	for _, fn := range units {
 		for _, vc := range fn.CallsTo(false, validateBlock) {
 			c.VisitGraph(fn)
 			check(fn, "invalid-block-from-checkpoint-sync", fn.CheckOf(vc.Expr).Fail, vc.Pos())
@@ -1054,6 +1064,7 @@ func c11r5(c *Ctx) {
 	}
 	// the ban function reports to the peer store before any success return
 	{
+		ban := c.P.Expand(ban, ir.ExpandOpt{Key: "all"}) // its own helpers and closures expanded
 		c.VisitGraph(ban)
 		pmBan := c.P.Method("syncer", "PeerStore", "Ban")
 		ob := c.Ob(ban, "ban-reports-to-peer-store", ban.Body.Pos())
@@ -1113,8 +1124,12 @@ func c11r6(c *Ctx) {
 					return
 				}
 				positional := false
-				if _, isConst := f.ConstInt(ix.Index); isConst {
+				if cv, isConst := f.ConstInt(ix.Index); isConst {
 					positional = true
+					// the pieces slices.Chunk yields are never empty: piece[0] needs no test
+					if cv == 0 && chunkPiece(f, f.ObjOf(ix.X)) {
+						positional = false
+					}
 				} else if be, ok := ast.Unparen(ix.Index).(*ast.BinaryExpr); ok && be.Op == token.SUB {
 					if lx := lenOf(f, be.X); lx != nil && sameLvalue(f, lx, ix.X) {
 						positional = true
@@ -1205,4 +1220,25 @@ func c11r6(c *Ctx) {
 			}
 		}
 	}
+}
+
+// chunkPiece reports whether obj is the loop variable of `for obj := range slices.Chunk(list, n)` (the library
+// documents that every piece it yields holds at least one element).
+func chunkPiece(f *ir.Func, obj types.Object) bool {
+	if obj == nil {
+		return false
+	}
+	found := false
+	ir.Walk(f.Body, true, func(x ast.Node) {
+		rs, ok := x.(*ast.RangeStmt)
+		if !ok || rs.Key == nil || rs.Value != nil || f.ObjOf(rs.Key) != obj {
+			return
+		}
+		if call, ok := ast.Unparen(rs.X).(*ast.CallExpr); ok {
+			if fn := f.Callee(call); fn != nil && fn.Pkg() != nil && fn.Pkg().Path() == "slices" && fn.Name() == "Chunk" {
+				found = true
+			}
+		}
+	})
+	return found
 }
